@@ -387,7 +387,7 @@ impl Engine for LalrDiff {
         thread_local! { static SCOPE: SmallScope = SmallScope::new(); }
         SCOPE.with(|s| self.run(w, idx, s));
     }
-    fn describe_case(&self, _prop: &str, tier: Tier, seed: u64, idx: u64) -> Value {
+    fn describe_case(&self, _prop: &str, tier: Tier, seed: u64, idx: u64, _sub: u64) -> Value {
         let c = make_case(seed, tier, idx, &SmallScope::new());
         json!({"class": "generated-grammar", "grammar_src": c.src, "source": c.source.name()})
     }
